@@ -97,7 +97,7 @@ def main(ctx):
               "reentrant_execs", "twosession_execs", "flat2_decorated_register",
               "flat2_decorated_subscribe", "flat2_encrypted_with_options", "unrequested_progress:ignored",
               "flat2_request_from_callback", "cancelled_call_cases", "given_up_request_cases",
-              "codec_progressive_cases", "per_session_error_classes"):
+              "codec_progressive_cases", "per_session_error_classes", "refused_send_cases"):
         ctx.require(n)
 
 
@@ -1422,6 +1422,46 @@ def _job_flat2(a, env, seed):
             if exc is not None or l1.fstate("n")[0] != "ok":
                 bad("call-after-given-up-request", "call after a given-up %s: raised %r, state %s" % (
                     kind, exc, l1.fbrief("n")))
+    # ---- (5b) the transport refuses the request message (too long for the peer, not serializable,
+    # transport just lost): the API call fails (raises or returns a failed result), and NOTHING stays
+    # pending - a reply bearing the id the refused request would have had matches no pending
+    # request (protocol violation); the next request is served normally
+    from autobahn.wamp.exception import SerializationError, TransportLost, ProtocolError
+    from autobahn.exception import PayloadExceededError
+    for kind in ("call", "publish", "subscribe", "register"):
+        for exc_cls in (PayloadExceededError, SerializationError, TransportLost):
+            l1 = H.L1().join()
+            s = l1.session
+            warm = s.call("com.refused.warmup", 0)       # so that the refused request is not the first id
+            l1.track("w", warm)
+            l1.settle()
+            next_id = l1.transport.sent[-1].request + 1
+            l1.transport.fail_send = exc_cls("transport refuses this message")
+            n0 = len(l1.transport.sent)
+            if kind == "call":
+                r = l1.api(s.call, "com.refused.p", 1)
+            else:
+                r = l1.api(issue, l1, kind)
+            l1.settle()
+            evals += 1
+            stats["refused_send_cases"] += 1
+            failed = r[0] == "raise"
+            if r[0] == "ok" and r[1] is not None:
+                l1.track("r", r[1])
+                failed = l1.fstate("r")[0] == "err"
+            if not failed:
+                bad("refused-request-not-failed", "%s whose message the transport refused (%s): the API returned %s" % (
+                    kind, exc_cls.__name__, l1.fbrief("r") if "r" in l1.futs else r[0]))
+            if len(l1.transport.sent) != n0:
+                bad("request-wire", "%s refused by the transport, yet %d messages recorded" % (kind, len(l1.transport.sent) - n0))
+            rep = {"call": M.Result(next_id, args=["ghost"]), "publish": M.Published(next_id, 9),
+                   "subscribe": M.Subscribed(next_id, 9), "register": M.Registered(next_id, 9)}[kind]
+            exc = l1.deliver(rep)
+            l1.settle()
+            if exc is None or not isinstance(exc, ProtocolError):
+                bad("reply-for-refused-request-accepted", "%s refused by the transport (%s); a %s bearing the id it "
+                    "would have had (%d) was %s" % (kind, exc_cls.__name__, type(rep).__name__, next_id,
+                                                      "accepted silently" if exc is None else "answered with %s" % H.exc_brief(exc)))
     # ---- (6) progressive results while a payload codec is active: decodable chunks reach on_progress
     # decoded; a chunk the codec cannot decode is not the reply that completes the call - the call
     # stays pending and completes with the final RESULT (which is no protocol violation)
